@@ -31,7 +31,7 @@ class LazyPredicate[T](Predicate[T]):
 
 def find_predicate_by_ref(frame, ref: str) -> Predicate | None:
     for key, value in frame.f_locals.items():
-        if key == ref:
+        if key == ref and key != "self" and isinstance(value, Predicate):
             return value
     if next_frame := frame.f_back:
         return find_predicate_by_ref(next_frame, ref)
